@@ -404,8 +404,12 @@ pub fn run_parent(info: &PropInfo, tier: Tier, seed: u64, workers: u32) -> Paren
             let p = keep.join(format!("inconclusive-{:016x}.json", hash_str(&journal)));
             let _ = fs::write(&p, &journal);
             inconclusive.push(format!("worker {}: {} (case saved to {})", i, why, p.display()));
+        } else if status.code().is_some() {
+            // an ordinary non-zero exit: the harness itself failed (its own panic, bad arguments)
+            let journal = fs::read_to_string(dir.join(format!("journal_{}.json", i))).unwrap_or_default();
+            inconclusive.push(format!("worker {} exited with {:?} (harness failure, not a verdict); last case: {}", i, status.code(), sdjwt_model::sut::clip(&journal, 1500)));
         } else {
-            // died: abort, stack overflow, kill. The journal holds the case that was executing.
+            // died by a signal: abort, stack overflow, kill. The journal holds the case that was executing.
             let journal = fs::read_to_string(dir.join(format!("journal_{}.json", i))).unwrap_or_default();
             let case = serde_json::from_str::<Value>(&journal).ok().and_then(|v| v.get("case").cloned());
             match case {
